@@ -359,10 +359,11 @@ def c12_f(ctx: Ctx):
     """The loser of an initialisation race never deletes the winner's state point file: in _StatePointDict.save the clean-up `os.remove(<state point file>)` is
     not reachable for EEXIST / EACCES (what the final rename or the open report when another process holds or has just created the file)."""
     R = "C12-f"
-    f = ctx.fn("signac.job:_StatePointDict.save")
+    # the conditional write of the state point file: _StatePointDict.save, or (when it was written out at its only user) Job.init
+    f = ctx.prog.funcs.get("signac.job:_StatePointDict.save") or ctx.fn("signac.job:Job.init")
     out = []
     ex = ExcFacts(ctx)
-    k = f.qual + "|no-delete-on-contention"
+    k = "signac.job:_StatePointDict.save|no-delete-on-contention"
     rems = {id(e.node) for e in ctx.effects.direct(f) if e.kind == "delete"}
     if not rems:
         return [ctx.ok(R, f, f.node, "save() never deletes the state point file", construct=k, nontrivial=False)]
@@ -399,6 +400,28 @@ def c12_f(ctx: Ctx):
                 rr, _ = _reaches(sel.body, sel.name or "_", kind, lambda x: isinstance(x, ast.Raise) and (x.exc is None or (isinstance(x.exc, ast.Name) and x.exc.id == (sel.name or "_"))))
                 if not rr:
                     break           # swallowed or replaced here: outer handlers never see it
+        # ... and the loser is not failed either: EEXIST / EACCES of the write are tolerated (the subsequent load validates what the winner wrote)
+        raised = []
+        for kind in ("EEXIST", "EACCES"):
+            exc = {"EEXIST": "FileExistsError", "EACCES": "PermissionError"}[kind]
+            for t in chain:
+                sel = None
+                for h in t.handlers:
+                    if h.type is None or ex.catches(ex.handler_type_names(f, h), exc):
+                        sel = h
+                        break
+                if sel is None:
+                    continue
+                rr, _ = _reaches(sel.body, sel.name or "_", kind, lambda x: isinstance(x, ast.Raise))
+                if rr:
+                    raised.append(kind)
+                break
+        kt = "signac.job:_StatePointDict.save|contention-tolerated"
+        if raised:
+            out.append(ctx.viol(R, f, tr, f"the handler of the failed state point write raises for errno {sorted(set(raised))}: a process that loses the initialisation race (its rename / open "
+                                "collides with the winner's file) fails with PermissionError / FileExistsError although the job is validly initialised", construct=kt))
+        else:
+            out.append(ctx.ok(R, f, tr, "EEXIST / EACCES of the state point write are tolerated (the load that follows validates the file)", construct=kt))
         if bad:
             out.append(ctx.viol(R, f, tr, f"the handler of the failed state point write deletes the file also for errno {sorted(bad)}: that is what a process gets whose rename / open "
                                 "collides with another process initialising the same job, so the loser removes the winner's valid state point file and the job directory is left "
